@@ -24,7 +24,7 @@ func init() {
 		ID: "C08",
 		Meta: func(tier string) fw.Meta {
 			return fw.Meta{
-				Flavours:   []string{"plain", "cover"},
+				Flavours:   []string{"plain", "cover", "386"},
 				Blocks:     16,
 				Procs:      16,
 				Exhaustive: true,
@@ -524,6 +524,26 @@ func runC08(c *fw.Ctx) {
 			c.Add("f1_witness_no_longer_fails", 1)
 			c.Note("the recorded F1 witness history no longer violates C08 on this tree")
 		}
+	}
+	if c.Flavour == "386" {
+		// the 32-bit build: random histories only, half of them with sizes
+		// counted in units of 2^26..2^56 (sizes and the limit are int64, but
+		// intermediate results may be narrowed to int)
+		for k := 0; k < 500; k++ {
+			if !c.Begin(k) {
+				continue
+			}
+			r := c.Rng()
+			cfg := c08cfg{Limit: int64(1 + r.IntN(40)), Unit: r.IntN(4) == 0, Keys: 2 + r.IntN(39), NoCallback: k%5 == 3}
+			if !cfg.Unit && k%2 == 1 {
+				cfg.Shift = []uint{26, 27, 28, 29, 31, 32, 33, 48, 56}[r.IntN(9)]
+				c.Add("runs_with_sizes_beyond_2_to_the_31", 1)
+			}
+			ops := c08gen(r, cfg, 60+r.IntN(300))
+			c08both(c, cfg, ops)
+			c.Add("histories", 1)
+		}
+		return
 	}
 	c08exhaustive(c, 1<<20)
 	// long-lived caches: one instance carries 150 000 (thorough 600 000) calls,
